@@ -37,7 +37,7 @@ theorem logPos_ip_le (p : Pos) (log : List Ev) : (logPos p log).ip ≤ p.ip + lo
 
 /-- `take_output` on the emitted stream, the positions and the invariants -/
 theorem take_facts {s s' : St} {size : Nat} {out : Bytes} (hR : RunOK s) (h : takeOutput s size = .ok (s', out)) (d : Bytes) :
-    RunOK s' ∧ emitted (d ++ out) s' = emitted d s ∧ s'.pos = s.pos := by
+    RunOK s' ∧ emitted (d ++ out) s' = emitted d s ∧ s'.pos = s.pos ∧ s'.isInitialized = s.isInitialized := by
   rcases hR.inv with hf | hI
   · obtain ⟨_, hp, _, hno, _⟩ := isFresh_fields hf
     have : takeOutput s size = .ok (s, []) := by
@@ -47,7 +47,7 @@ theorem take_facts {s s' : St} {size : Nat} {out : Bytes} (hR : RunOK s) (h : ta
     rw [this] at h
     simp only [Out.ok.injEq, Prod.mk.injEq] at h
     obtain ⟨rfl, rfl⟩ := h
-    exact ⟨hR, by rw [List.append_nil], rfl⟩
+    exact ⟨hR, by rw [List.append_nil], rfl, rfl⟩
   · obtain ⟨hI', hp, _, hst⟩ := takeOutput_spec hI h
     have hlb : s'.lastBytes = s.lastBytes ∧ s'.lastBytesBits = s.lastBytesBits ∧ s'.pos = s.pos := by
       unfold takeOutput at h
@@ -64,12 +64,40 @@ theorem take_facts {s s' : St} {size : Nat} {out : Bytes} (hR : RunOK s) (h : ta
     have hpos := hlb.2.2
     have hip : s'.inputPos = s.inputPos := congrArg Pos.ip hpos
     have hlf : s'.lastFlushPos = s.lastFlushPos := congrArg Pos.lf hpos
-    refine ⟨⟨Or.inr hI', ⟨carryOK_eq hR.frame.carry hlb.1 hlb.2.1, ?_⟩⟩, ?_, hpos⟩
+    refine ⟨⟨Or.inr hI', ⟨carryOK_eq hR.frame.carry hlb.1 hlb.2.1, ?_⟩⟩, ?_, hpos, by rw [hI'.init, hI.init]⟩
     · intro hb
       rcases hst with h1 | ⟨_, _, h1⟩
       · rw [hlb.2.1, hip, hlf]; exact hR.frame.body (h1 ▸ hb)
       · rw [h1] at hb; cases hb
     · rw [emitted_def, emitted_def, hlb.1, hlb.2.1, hp, List.append_assoc]
+
+/-- the stream header is emitted once, by the first `compress_stream` call -/
+def WinShape (s0 s : St) (log : List Ev) : Prop :=
+  (s0.isInitialized = false ∧ s.isInitialized = false ∧ log = []) ∨
+  (s0.isInitialized = false ∧ s.isInitialized = true ∧ ∃ b rest, log = .window b :: rest ∧ NoWindow rest) ∨
+  (s0.isInitialized = true ∧ s.isInitialized = true ∧ NoWindow log)
+
+theorem winShape_nil {s0 s : St} (h : s.isInitialized = s0.isInitialized) : WinShape s0 s [] := by
+  cases hi : s0.isInitialized
+  · exact Or.inl ⟨hi, by rw [h, hi], rfl⟩
+  · exact Or.inr (Or.inr ⟨hi, by rw [h, hi], fun _ he => by cases he⟩)
+
+theorem winShape_trans {s0 s1 s2 : St} {l1 l2 : List Ev} (h1 : WinShape s0 s1 l1) (h2 : WinShape s1 s2 l2) :
+    WinShape s0 s2 (l1 ++ l2) := by
+  rcases h1 with ⟨a1, a2, a3⟩ | ⟨a1, a2, b, r, a3, a4⟩ | ⟨a1, a2, a3⟩
+  · subst a3
+    rcases h2 with ⟨b1, b2, b3⟩ | ⟨b1, b2, b3⟩ | ⟨b1, _, _⟩
+    · exact Or.inl ⟨a1, b2, by rw [b3]; rfl⟩
+    · exact Or.inr (Or.inl ⟨a1, b2, b3⟩)
+    · rw [a2] at b1; cases b1
+  · rcases h2 with ⟨b1, _, _⟩ | ⟨b1, _, _⟩ | ⟨_, b2, b3⟩
+    · rw [a2] at b1; cases b1
+    · rw [a2] at b1; cases b1
+    · exact Or.inr (Or.inl ⟨a1, b2, b, r ++ l2, by rw [a3]; rfl, noWindow_append a4 b3⟩)
+  · rcases h2 with ⟨b1, _, _⟩ | ⟨b1, _, _⟩ | ⟨_, b2, b3⟩
+    · rw [a2] at b1; cases b1
+    · rw [a2] at b1; cases b1
+    · exact Or.inr (Or.inr ⟨a1, b2, noWindow_append a3 b3⟩)
 
 /-- everything the log of a history says -/
 structure RunFacts (o : Oracle) (s0 : St) (t0 : Trace) (s : St) (t : Trace) (log : List Ev) : Prop where
@@ -78,13 +106,14 @@ structure RunFacts (o : Oracle) (s0 : St) (t0 : Trace) (s : St) (t : Trace) (log
   pos : s.pos = logPos s0.pos log
   lok : LogOK s0.pos log
   reqs : t.reqs = t0.reqs ++ logReqs log
+  win : WinShape s0 s log
 
 theorem RunFacts.refl (o : Oracle) {s : St} (t : Trace) (h : RunOK s) : RunFacts o s t s t [] :=
-  ⟨h, by simp [logBits], rfl, trivial, by simp [logReqs]⟩
+  ⟨h, by simp [logBits], rfl, trivial, by simp [logReqs], winShape_nil rfl⟩
 
 theorem RunFacts.trans {o : Oracle} {s0 s1 s2 : St} {t0 t1 t2 : Trace} {l1 l2 : List Ev}
     (h1 : RunFacts o s0 t0 s1 t1 l1) (h2 : RunFacts o s1 t1 s2 t2 l2) : RunFacts o s0 t0 s2 t2 (l1 ++ l2) := by
-  refine ⟨h2.ok, ?_, ?_, ?_, ?_⟩
+  refine ⟨h2.ok, ?_, ?_, ?_, ?_, winShape_trans h1.win h2.win⟩
   · rw [h2.bits, h1.bits, logBits_append, List.append_assoc]
   · rw [h2.pos, h1.pos, logPos_append]
   · exact logOK_append h1.lok (by rw [← h1.pos]; exact h2.lok)
@@ -112,7 +141,8 @@ theorem runCall_facts {o : Oracle} {fuel : Nat} {s s' : St} {t t' : Trace} {c : 
     · have hf' := setParameter_fresh hf id v
       obtain ⟨_, hp, hip, _, hl⟩ := isFresh_fields hf
       obtain ⟨_, hp', hip', _, hl'⟩ := isFresh_fields hf'
-      refine ⟨by rw [hip', hip]; exact Nat.zero_le _, [], runOK_fresh hf', ?_, ?_, trivial, by simp [logReqs]⟩
+      refine ⟨by rw [hip', hip]; exact Nat.zero_le _, [], runOK_fresh hf', ?_, ?_, trivial, by simp [logReqs],
+        winShape_nil (by rw [isFreshInit hf, isFreshInit hf'])⟩
       · simp only [deliveredBits, logBits, List.flatMap_nil, List.append_nil]
         rw [hp, hp']
         unfold St.carry
@@ -123,16 +153,16 @@ theorem runCall_facts {o : Oracle} {fuel : Nat} {s s' : St} {t t' : Trace} {c : 
         rw [hp']; rfl
     · have : setParameter s id v = (s, false) := by simp [setParameter, hI.init]
       rw [this]
-      exact ⟨Nat.le_add_right _ _, [], hR, by simp [deliveredBits, logBits], rfl, trivial, by simp [logReqs]⟩
+      exact ⟨Nat.le_add_right _ _, [], hR, by simp [deliveredBits, logBits], rfl, trivial, by simp [logReqs], winShape_nil rfl⟩
   | take size =>
     simp only [runCall] at h
     split at h
     · rename_i s1 out htake
       simp only [Out.ok.injEq, Prod.mk.injEq] at h
       obtain ⟨rfl, rfl⟩ := h
-      obtain ⟨hR', hb, hp⟩ := take_facts hR htake t.delivered
+      obtain ⟨hR', hb, hp, hini⟩ := take_facts hR htake t.delivered
       have hipe : s1.inputPos = s.inputPos := congrArg Pos.ip hp
-      refine ⟨by rw [hipe]; exact Nat.le_add_right _ _, [], hR', ?_, hp, trivial, by simp [logReqs]⟩
+      refine ⟨by rw [hipe]; exact Nat.le_add_right _ _, [], hR', ?_, hp, trivial, by simp [logReqs], winShape_nil hini⟩
       simp only [deliveredBits, logBits, List.flatMap_nil, List.append_nil]
       exact hb
     · simp at h
@@ -149,22 +179,24 @@ theorem runCall_facts {o : Oracle} {fuel : Nat} {s s' : St} {t t' : Trace} {c : 
           compressStream o fuel si op chunk cap = .ok (s1, io, r) →
           ∃ log, RunOK s1 ∧ emitted (t.delivered ++ io.out) s1 = emitted t.delivered si ++ logBits o log
             ∧ s1.pos = logPos si.pos log ∧ LogOK si.pos log ∧ io.reqs = logReqs log
-            ∧ s1.inputPos ≤ si.inputPos + chunk.length := by
+            ∧ s1.inputPos ≤ si.inputPos + chunk.length ∧ NoWindow log ∧ s1.isInitialized = true := by
         intro si hI hF hw' hcs'
         cases r
         · obtain ⟨hs, hio⟩ := refused_unchanged hop hI hw' hcs'
           subst hio
           rcases hs with rfl | rfl
-          · exact ⟨[], ⟨Or.inr hI, hF⟩, by simp [logBits, Io.start], rfl, trivial, by simp [logReqs, Io.start], Nat.le_add_right _ _⟩
+          · exact ⟨[], ⟨Or.inr hI, hF⟩, by simp [logBits, Io.start], rfl, trivial, by simp [logReqs, Io.start], Nat.le_add_right _ _,
+              (fun _ he => by cases he), hI.init⟩
           · obtain ⟨_, _, _, _, _, u6, _, _, u9, u10, _, _, u13, u14, u15⟩ := updateSizeHint_fields si 0
             refine ⟨[], ⟨Or.inr (inv_updateSizeHint hI 0), frameInv_of_eq hF u15 u14 u9 u6 u10⟩, ?_,
-              by rw [updateSizeHint_pos]; rfl, trivial, by simp [logReqs, Io.start], by rw [u6]; exact Nat.le_add_right _ _⟩
+              by rw [updateSizeHint_pos]; rfl, trivial, by simp [logReqs, Io.start], by rw [u6]; exact Nat.le_add_right _ _,
+              (fun _ he => by cases he), (inv_updateSizeHint hI 0).init⟩
             simp only [logBits, List.flatMap_nil, List.append_nil, Io.start]
             exact emitted_eq rfl u13 u15 u14
         · obtain ⟨log, hsteps⟩ := call_steps hop hI hw' hcs'
           have f := steps_facts hsteps hF t.delivered
           have hI1 := ((compressStream_refines hop hI hw' hcs').2 rfl).1
-          refine ⟨log, ⟨Or.inr hI1, f.frame⟩, ?_, f.pos, f.ok, ?_, ?_⟩
+          refine ⟨log, ⟨Or.inr hI1, f.frame⟩, ?_, f.pos, f.ok, ?_, ?_, (f.initd hI.init).2, hI1.init⟩
           rotate_left 2
           · have h1 := logPos_ip_le si.pos log
             have h2 := f.used
@@ -188,12 +220,13 @@ theorem runCall_facts {o : Oracle} {fuel : Nat} {s s' : St} {t t' : Trace} {c : 
         have hipe : (ensureInitialized s).inputPos = 0 := by
           obtain ⟨p, rfl⟩ := hf
           simp [ensureInitialized, St.new]
-        obtain ⟨log, k1, k2, k3, k4, k5, k6⟩ := key (ensureInitialized s) hIe hFe (by rw [hipe]; rw [hip] at hw; exact hw) hcs
+        obtain ⟨log, k1, k2, k3, k4, k5, k6, k7, k8⟩ := key (ensureInitialized s) hIe hFe (by rw [hipe]; rw [hip] at hw; exact hw) hcs
         have hinit : Step o op (s, Io.start chunk cap) (.window (ensureInitialized s).carry) (ensureInitialized s, Io.start chunk cap) :=
           Step.init hf
         have hb0 := step_emitted hR.frame hinit t.delivered
         obtain ⟨q1, q2, _⟩ := step_pos hinit
-        refine ⟨by rw [hipe] at k6; rw [hip]; exact k6, .window (ensureInitialized s).carry :: log, k1, ?_, ?_, ⟨q2, by rw [← q1]; exact k4⟩, ?_⟩
+        refine ⟨by rw [hipe] at k6; rw [hip]; exact k6, .window (ensureInitialized s).carry :: log, k1, ?_, ?_, ⟨q2, by rw [← q1]; exact k4⟩, ?_,
+          Or.inr (Or.inl ⟨hini, k8, _, _, rfl, k7⟩)⟩
         · simp only [deliveredBits, Trace.afterStream]
           show emitted (t.delivered ++ io.out) s1 = emitted t.delivered s ++ logBits o (.window (ensureInitialized s).carry :: log)
           rw [k2]
@@ -204,8 +237,8 @@ theorem runCall_facts {o : Oracle} {fuel : Nat} {s s' : St} {t t' : Trace} {c : 
         · simp only [Trace.afterStream]
           rw [k5]
           simp [logReqs, Ev.req, List.filterMap_cons]
-      · obtain ⟨log, k1, k2, k3, k4, k5, k6⟩ := key s hI hR.frame hw hcs
-        refine ⟨k6, log, k1, ?_, k3, k4, ?_⟩
+      · obtain ⟨log, k1, k2, k3, k4, k5, k6, k7, k8⟩ := key s hI hR.frame hw hcs
+        refine ⟨k6, log, k1, ?_, k3, k4, ?_, Or.inr (Or.inr ⟨hI.init, k8, k7⟩)⟩
         · simp only [deliveredBits, Trace.afterStream]
           exact k2
         · simp only [Trace.afterStream]
